@@ -129,6 +129,168 @@ def describe_origin(t):
     return out
 
 
+def semantic_id_tables(F, vs):
+    """the two identifier maps derived by abstract interpretation of to_code_const / from_code_const (whatever the shape of their
+    match arms): {"to": [(variant, lo, hi, id | None)], "from": [(lo, hi, variant | None, param | None)]}, or None if the
+    interpreter cannot follow the code"""
+    import ivl
+    from ivl import AI, Agg, Ref, Frame
+    UMAX = (1 << 64) - 1
+    try:
+        tb = F.body("dispatch::codes::Codes::to_code_const")
+        fb = F.body("dispatch::codes::Codes::from_code_const")
+        to = []
+        for idx, v in sorted(vs.items()):
+            var = v["name"]
+            flds = v["fields"]
+
+            def run_to(it, var=var, idx=idx, flds=flds):
+                holder = Frame({"path": "input"}, {})
+                holder.locals[0] = Agg("adt", CODES_ADT, var, idx, [it.input(f["ty"] if f["ty"] in ivl.TY else "usize") for f in flds])
+                return it.call_body(tb, [Ref(holder, 0, ())], {}, 0)
+
+            def refine(r, it):
+                return isinstance(r, Agg) and r.variant == "Ok" and isinstance(r.fields[0], AI) and r.fields[0].const() is None
+            cells = ivl.partition(F, run_to, 0, UMAX if flds else 0, refine=refine, max_cells=4000)
+            for c in cells:
+                r = c.ret
+                if c.status == "ok" and isinstance(r, Agg) and r.variant == "Ok" and isinstance(r.fields[0], AI):
+                    to.append((var, c.y0, c.y1, r.fields[0].const()))
+                elif c.status == "ok" and isinstance(r, Agg) and r.variant == "Err":
+                    to.append((var, c.y0, c.y1, None))
+                else:
+                    return None
+
+        def run_from(it):
+            return it.call_body(fb, [it.input("usize")], {}, 0)
+
+        def refine_from(r, it):
+            return isinstance(r, Agg) and r.variant == "Ok" and isinstance(r.fields[0], Agg) and any(isinstance(x, AI) and x.const() is None for x in r.fields[0].fields)
+        frm = []
+        for c in ivl.partition(F, run_from, 0, UMAX, refine=refine_from, max_cells=4000):
+            r = c.ret
+            if c.status == "ok" and isinstance(r, Agg) and r.variant == "Ok" and isinstance(r.fields[0], Agg):
+                cv = r.fields[0]
+                pv = cv.fields[0].const() if cv.fields and isinstance(cv.fields[0], AI) else None
+                frm.append((c.y0, c.y1, cv.variant, pv))
+            elif c.status == "ok" and isinstance(r, Agg) and r.variant == "Err":
+                frm.append((c.y0, c.y1, None, None))
+            else:
+                return None
+        return {"to": to, "from": frm}
+    except (ivl.Unsupported, ivl.Undecided, ivl.Panic, KeyError, AttributeError, IndexError):
+        return None
+
+
+def check_id_tables(chk, sem, cls_of_id, ids):
+    chk.rule("N3.to", floor=59, doc="to_code_const, interpreted on every variant and every parameter value: (V,p) -> id of the same canonical class; unsupported parameters give an error")
+    chk.rule("N3.from", floor=51, doc="from_code_const, interpreted on every identifier value: id -> code of that id's class and to(from(id)) = id; every other value gives an error")
+    to_tab = {}
+    err_seen = False
+    for var, lo, hi, idv in sem["to"]:
+        fam, field = cc.VARIANT[var]
+        if idv is None:
+            err_seen = True
+            continue
+        if hi - lo > 256:
+            chk.bad("N3.to", "%s[%d..%d]" % (var, lo, hi), "to_code_const maps the whole parameter range %d..=%d of %s to the single identifier %d" % (lo, hi, var, idv))
+            continue
+        for k in range(lo, hi + 1):
+            pk = k if field else None
+            kc = cc.canon(fam, pk)
+            chk.expect("N3.to", "%s" % ((var, ("const", pk)) if field else (var,),), cls_of_id.get(idv) == kc,
+                       "to_code_const maps %s{%s} (class %s) to identifier %s whose class is %s" % (var, pk, kc, idv, cls_of_id.get(idv)),
+                       sample={"code": "%s{%s}" % (var, pk), "id": idv})
+            to_tab[(var, pk)] = idv
+    chk.expect("N3.to", "default-is-error", err_seen, "to_code_const has no error result for unsupported codes")
+    seen = set()
+    err_seen = False
+    for lo, hi, var, pv in sem["from"]:
+        if var is None:
+            err_seen = True
+            continue
+        if hi - lo > 256:
+            chk.bad("N3.from", "id[%d..%d]" % (lo, hi), "from_code_const maps the whole range %d..=%d to one code" % (lo, hi))
+            continue
+        for idv in range(lo, hi + 1):
+            seen.add(idv)
+            fam, field = cc.VARIANT[var]
+            c = cc.canon(fam, pv if field else None)
+            back = to_tab.get((var, pv if field else None))
+            ok2 = cls_of_id.get(idv) == c and back == idv
+            chk.expect("N3.from", "id=%s" % idv, ok2, "from_code_const(%s) yields %s{%s} of class %s (identifier's class: %s); to_code_const maps it back to %s" % (idv, var, pv, c, cls_of_id.get(idv), back),
+                       sample={"id": idv, "code": "%s{%s}" % (var, pv)})
+    chk.expect("N3.from", "default-is-error", err_seen, "from_code_const has no error result")
+    chk.expect("N3.from", "covers-all-ids", seen == set(ids), "from_code_const accepts %s, identifiers are %s" % (sorted(seen)[:70], sorted(ids)[:70]),
+               detail={"missing": sorted(set(ids) - seen), "extra": sorted(seen - set(ids))[:20]})
+
+
+def run_eq(chk, F):
+    vs = variants(F)
+    # ---- N4 PartialEq
+    chk.rule("N4.eq", floor=30, doc="every pair declared equal is same-variant-same-parameter or one canonical class")
+    chk.rule("N4.reflexive", floor=11, doc="every variant compares equal to itself")
+    b = F.one(name="eq", trait_is="std::cmp::PartialEq", self_is=SELF_CODES)
+    S = ("deref", ("arg", 1, "self"))
+    O = ("deref", ("arg", 2, "other"))
+    refl = set()
+    n = 0
+    for p in mir.walk(b):
+        if p.end[0] != "return":
+            continue
+        spec = {}
+        for who, subj in (("self", S), ("other", O)):
+            var = None
+            par = None
+            for (t, op, v) in p.constraints:
+                if t == ("discr", subj) and op == "==":
+                    var = vs[v]["name"]
+                elif t[0] == "field" and t[1][0] == "variant" and t[1][1] == subj and op == "==":
+                    par = v
+            spec[who] = (var, par)
+        r = p.ret
+        n += 1
+        kid = "%s=%s:%s" % (spec["self"], spec["other"], mir.fmt(r)[:24])
+        if r == ("const", True, "bool"):
+            (v1, p1), (v2, p2) = spec["self"], spec["other"]
+            ok = v1 is not None and v2 is not None
+            if ok:
+                f1, fld1 = cc.VARIANT[v1]
+                f2, fld2 = cc.VARIANT[v2]
+                ok = (fld1 is None or p1 is not None) and (fld2 is None or p2 is not None) and cc.canon(f1, p1) == cc.canon(f2, p2)
+            chk.expect("N4.eq", kid, ok, "eq declares %s and %s equal but they are not one canonical class" % (spec["self"], spec["other"]),
+                       sample={"self": spec["self"], "other": spec["other"]})
+            if ok and v1 == v2:
+                refl.add(v1)
+        elif isinstance(r, tuple) and r[0] == "ret":
+            ev = [e for e in p.calls() if e[3] == r]
+            a = list(ev[0][2]) if ev else []
+            for i in range(len(a)):
+                while isinstance(a[i], tuple) and a[i][0] == "ref":
+                    a[i] = a[i][1]
+            ok = (len(a) == 2 and a[0][0] == "field" and a[1][0] == "field" and a[0][2] == a[1][2]
+                  and a[0][1][0] == "variant" and a[1][1][0] == "variant" and a[0][1][2] == a[1][1][2]
+                  and {a[0][1][1], a[1][1][1]} == {S, O} and ev[0][1].endswith("PartialEq::eq"))
+            chk.expect("N4.eq", kid, ok, "eq compares %s on this path, not the same field of the same variant of both operands"
+                       % [mir.fmt(x) for x in a])
+            if ok:
+                refl.add(a[0][1][2])
+        elif isinstance(r, tuple) and r[0] == "binop" and r[1] == "Eq":
+            a = [r[2], r[3]]
+            ok = (a[0][0] == "field" and a[1][0] == "field" and a[0][2] == a[1][2] and a[0][1][0] == "variant"
+                  and a[1][1][0] == "variant" and a[0][1][2] == a[1][1][2] and {a[0][1][1], a[1][1][1]} == {S, O})
+            chk.expect("N4.eq", kid, ok, "eq compares %s" % [mir.fmt(x) for x in a])
+            if ok:
+                refl.add(a[0][1][2])
+        elif r == ("const", False, "bool"):
+            chk.ok("N4.eq", kid)
+        else:
+            chk.bad("N4.eq", kid, "eq returns %s on this path" % mir.fmt(r))
+    for idx, v in sorted(vs.items()):
+        chk.expect("N4.reflexive", v["name"], v["name"] in refl, "Codes::%s never compares equal to itself" % v["name"])
+
+
+
 def run(chk, F, tier):
     vs = variants(F)
     chk.rule("N1.display", floor=11, doc="Display arm of every Codes variant decoded (literal or Name({field}))")
@@ -287,6 +449,11 @@ def run(chk, F, tier):
         chk.expect("N3.consts", "class=%s" % (c,), len(vsx) == 1, "class %s has several identifiers %s" % (c, vsx))
     chk.expect("N3.consts", "dense", sorted(ids) == list(range(len(ids))), "identifiers are not 0..=%d: %s" % (len(ids) - 1, sorted(ids)))
 
+    sem = semantic_id_tables(F, vs)
+    if sem is not None:
+        check_id_tables(chk, sem, cls_of_id, ids)
+        run_eq(chk, F)
+        return
     chk.rule("N3.to", floor=59, doc="to_code_const arm (V,p) -> id of the same canonical class")
     chk.rule("N3.from", floor=51, doc="from_code_const arm id -> code of that id's class; to(from(id)) = id")
     subject = ("deref", ("arg", 1, "self"))
@@ -344,68 +511,7 @@ def run(chk, F, tier):
     chk.expect("N3.from", "covers-all-ids", from_seen == set(ids), "from_code_const arms %s != identifiers %s" % (sorted(from_seen), sorted(ids)),
                detail={"missing": sorted(set(ids) - from_seen), "extra": sorted(from_seen - set(ids))})
 
-    # ---- N4 PartialEq
-    chk.rule("N4.eq", floor=30, doc="every pair declared equal is same-variant-same-parameter or one canonical class")
-    chk.rule("N4.reflexive", floor=11, doc="every variant compares equal to itself")
-    b = F.one(name="eq", trait_is="std::cmp::PartialEq", self_is=SELF_CODES)
-    S = ("deref", ("arg", 1, "self"))
-    O = ("deref", ("arg", 2, "other"))
-    refl = set()
-    n = 0
-    for p in mir.walk(b):
-        if p.end[0] != "return":
-            continue
-        spec = {}
-        for who, subj in (("self", S), ("other", O)):
-            var = None
-            par = None
-            for (t, op, v) in p.constraints:
-                if t == ("discr", subj) and op == "==":
-                    var = vs[v]["name"]
-                elif t[0] == "field" and t[1][0] == "variant" and t[1][1] == subj and op == "==":
-                    par = v
-            spec[who] = (var, par)
-        r = p.ret
-        n += 1
-        kid = "%s=%s:%s" % (spec["self"], spec["other"], mir.fmt(r)[:24])
-        if r == ("const", True, "bool"):
-            (v1, p1), (v2, p2) = spec["self"], spec["other"]
-            ok = v1 is not None and v2 is not None
-            if ok:
-                f1, fld1 = cc.VARIANT[v1]
-                f2, fld2 = cc.VARIANT[v2]
-                ok = (fld1 is None or p1 is not None) and (fld2 is None or p2 is not None) and cc.canon(f1, p1) == cc.canon(f2, p2)
-            chk.expect("N4.eq", kid, ok, "eq declares %s and %s equal but they are not one canonical class" % (spec["self"], spec["other"]),
-                       sample={"self": spec["self"], "other": spec["other"]})
-            if ok and v1 == v2:
-                refl.add(v1)
-        elif isinstance(r, tuple) and r[0] == "ret":
-            ev = [e for e in p.calls() if e[3] == r]
-            a = list(ev[0][2]) if ev else []
-            for i in range(len(a)):
-                while isinstance(a[i], tuple) and a[i][0] == "ref":
-                    a[i] = a[i][1]
-            ok = (len(a) == 2 and a[0][0] == "field" and a[1][0] == "field" and a[0][2] == a[1][2]
-                  and a[0][1][0] == "variant" and a[1][1][0] == "variant" and a[0][1][2] == a[1][1][2]
-                  and {a[0][1][1], a[1][1][1]} == {S, O} and ev[0][1].endswith("PartialEq::eq"))
-            chk.expect("N4.eq", kid, ok, "eq compares %s on this path, not the same field of the same variant of both operands"
-                       % [mir.fmt(x) for x in a])
-            if ok:
-                refl.add(a[0][1][2])
-        elif isinstance(r, tuple) and r[0] == "binop" and r[1] == "Eq":
-            a = [r[2], r[3]]
-            ok = (a[0][0] == "field" and a[1][0] == "field" and a[0][2] == a[1][2] and a[0][1][0] == "variant"
-                  and a[1][1][0] == "variant" and a[0][1][2] == a[1][1][2] and {a[0][1][1], a[1][1][1]} == {S, O})
-            chk.expect("N4.eq", kid, ok, "eq compares %s" % [mir.fmt(x) for x in a])
-            if ok:
-                refl.add(a[0][1][2])
-        elif r == ("const", False, "bool"):
-            chk.ok("N4.eq", kid)
-        else:
-            chk.bad("N4.eq", kid, "eq returns %s on this path" % mir.fmt(r))
-    for idx, v in sorted(vs.items()):
-        chk.expect("N4.reflexive", v["name"], v["name"] in refl, "Codes::%s never compares equal to itself" % v["name"])
-
+    run_eq(chk, F)
 
 def run_all(chk, fsets, tier):
     import facts
